@@ -85,7 +85,11 @@ def task_const_rename(t):
     def val(r):
         g = inv.get(r)
         return den(r) if g is None else g
+    _decoy = sweep.Decoy(names, twin_of=m)
     for fu in mine:
+        _bad = _decoy.poke()
+        if _bad:
+            rec('second-manager:' + _bad, _bad, dict(task=t))
         if focus is not None and fu != focus:
             continue
         u = refs[fu]
